@@ -6,11 +6,14 @@ From C12 Require Import Model Spec Lists LinProofs ClassProofs HistProofs.
 Definition CacheInv (w : world) : Prop :=
   lookup (reg w) TT = None /\
   forall k g key l, lookup (gfs w) k = Some g -> lookup (g_cache g) key = Some l ->
-    l <> [] /\ ((key = TT /\ l = applicable g [TT]) \/
+    callable k l = true /\ ((key = TT /\ l = applicable g [TT]) \/
                 exists id c, registered w key id c /\ co_prec c <> [] /\ l = applicable g (co_prec c)).
 
 Lemma CacheInv_w0 : CacheInv w0.
-Proof. split; [reflexivity|]. intros k g key l H. discriminate. Qed.
+Proof.
+  split; [reflexivity|]. intros k g key l H Hc. simpl in H.
+  destruct (Nat.eqb k (gkey KU 0)); inversion H; subst g. discriminate.
+Qed.
 
 Lemma CacheInv_heap_reg_gfs : forall w w', heap w' = heap w -> reg w' = reg w -> gfs w' = gfs w -> CacheInv w -> CacheInv w'.
 Proof.
@@ -38,7 +41,7 @@ Proof. intros c. unfold hier, hier_of. destruct (co_prec c); discriminate. Qed.
 
 Theorem call_gf_spec : forall w k i, Inv w -> CacheInv w -> current w i = true ->
   exists ins c, nth_error (insts w) i = Some ins /\ registered w (co_name c) (i_cid ins) c /\
-    snd (call_gf w k i) = (match applicable (get_gf w k) (hier c) with [] => None | l => Some l end) /\
+    snd (call_gf w k i) = (let l := applicable (get_gf w k) (hier c) in if callable k l then Some l else None) /\
     CacheInv (fst (call_gf w k i)).
 Proof.
   intros w k i HI HC Hcur. unfold current in Hcur.
@@ -47,7 +50,7 @@ Proof.
   destruct (lookup (reg w) (co_name c)) as [id|] eqn:L; [|discriminate].
   apply Nat.eqb_eq in Hcur. subst id.
   exists ins, c. split; [reflexivity|]. split; [split; assumption|].
-  unfold call_gf. rewrite Ei, Gc. pose proof HC as [HT HCe].
+  unfold call_gf. rewrite Ei, Gc. pose proof HC as [HT HCe]. cbv zeta.
   destruct (hier c) as [|key p] eqn:Eh; [exfalso; exact (hier_nonnil c Eh)|].
   (* the key is t for a class that is not ready, the class name otherwise *)
   assert (Hkey : (co_prec c = [] /\ key = TT /\ p = []) \/ (co_prec c = key :: p /\ key = co_name c)).
@@ -59,31 +62,31 @@ Proof.
   destruct (lookup (g_cache (get_gf w k)) key) as [l|] eqn:El.
   + cbn [fst snd]. split; [|assumption].
     unfold get_gf in El. destruct (lookup (gfs w) k) as [g|] eqn:Eg; [|discriminate].
-    destruct (HCe k g key l Eg El) as [Hne Hd].
+    destruct (HCe k g key l Eg El) as [Hcl Hd].
     unfold get_gf. rewrite Eg.
-    assert (l = applicable g (key :: p)) as ->; [|destruct (applicable g (key :: p)); [contradiction | reflexivity]].
+    assert (l = applicable g (key :: p)) as Hl; [|rewrite <- Hl, Hcl; reflexivity].
     destruct Hkey as [[Hb [-> ->]]|[Ep Hk]].
     * destruct Hd as [[_ Hl]|[id' [c' [[L' _] _]]]]; [assumption | congruence].
     * destruct Hd as [[Hk' _]|[id' [c' [[L' G'] [_ Hl]]]]].
       -- assert (co_name c = TT) as Hn by congruence. rewrite Hn in L. congruence.
       -- rewrite Hk in L'. rewrite L in L'. inversion L'; subst id'. rewrite Gc in G'. inversion G'; subst c'. rewrite Ep in Hl. assumption.
-  + destruct (applicable (get_gf w k) (key :: p)) as [|a l] eqn:Ea.
-    * cbn [fst snd]. split; [reflexivity | assumption].
+  + destruct (callable k (applicable (get_gf w k) (key :: p))) eqn:Ea.
     * cbn [fst snd]. split; [reflexivity|]. split; [exact HT|].
       intros k' g' key' l' Hl' Hc'. cbn [gfs with_gfs] in Hl'.
       destruct (Nat.eq_dec k' k) as [->|Hne].
       -- rewrite lookup_set_same in Hl'. inversion Hl'; subst g'. simpl in Hc'.
          destruct (Nat.eq_dec key' key) as [->|Hk].
-         ++ rewrite lookup_set_same in Hc'. inversion Hc'; subst l'. split; [discriminate|].
+         ++ rewrite lookup_set_same in Hc'. inversion Hc'; subst l'. split; [exact Ea|].
             destruct Hkey as [[Hb [-> ->]]|[Ep Hk]].
-            ** left. split; [reflexivity|]. unfold applicable in *. simpl g_methods. symmetry. assumption.
+            ** left. split; reflexivity.
             ** right. exists (i_cid ins), c. split; [split; [rewrite Hk; assumption | assumption]|]. split; [congruence|].
-               rewrite Ep. unfold applicable in *. simpl g_methods. symmetry. assumption.
+               rewrite Ep. reflexivity.
          ++ rewrite lookup_set_other in Hc' by assumption.
             unfold get_gf in Hc'. destruct (lookup (gfs w) k) as [g|] eqn:Eg; [|discriminate].
             destruct (HCe k g key' l' Eg Hc') as [A Hd]. split; [assumption|].
             unfold get_gf. rewrite Eg. simpl g_methods. exact Hd.
       -- rewrite lookup_set_other in Hl' by assumption. exact (HCe k' g' key' l' Hl' Hc').
+    * cbn [fst snd]. split; [reflexivity | assumption].
 Qed.
 
 (* ---- defclass ------------------------------------------------------------------------------------ *)
